@@ -199,6 +199,7 @@ class Ctx:
         self.pid, self.tier, self.seed = pid, tier, seed
         self.t0 = time.time()
         self.violations = []       # (signature, description, replay_path, found_input)
+        self.breaks = []           # correspondence differences that are not by themselves property violations
         self.known_hits = []
         self.obligations = []      # (name, discharged: bool)
         self.coverage = {}
@@ -232,7 +233,21 @@ class Ctx:
             json.dump(payload, f, indent=1)
         self.violations.append((signature, description, path, found_input))
 
+    def brk(self, signature, description, payload):
+        """the model and the code disagree, but the observation does not itself contradict the property"""
+        for k in self.known:
+            if re.search(k["match"], signature):
+                return
+        self.breaks.append((signature, description, payload))
+
     def finish(self, level="proof", checker_cmd="", trusted=None, extra=None):
+        if self.breaks and not self.violations:
+            sig, desc, payload = self.breaks[0]
+            self.violation("correspondence-broken:" + sig, f"correspondence no longer checks ({len(self.breaks)} case(s) differ); first: {desc}",
+                           {"broken": "correspondence", "first_difference": payload, "other_differences": [d for _, d, _ in self.breaks[1:10]]},
+                           found_input=False)
+        elif self.breaks:
+            log(f"  also: {len(self.breaks)} correspondence difference(s), first: {self.breaks[0][1][:200]}")
         for kid, what in self.known_hits:
             print(f"KNOWN-FINDING: property={self.pid} {what}")
         n_ob = len(self.obligations)
